@@ -4,6 +4,7 @@ import (
 	"bytes"
 	"encoding/json"
 	"fmt"
+	"io"
 	"os"
 	"path/filepath"
 	"reflect"
@@ -312,6 +313,57 @@ func runC13Split(c c13Split) error {
 	if !reflect.DeepEqual(ku, ko) {
 		return fmt.Errorf("encode over the union file yields a different multiset")
 	}
+	// files that all share one encoding: the records written for the split are literally the records
+	// written for the same results in one file of that encoding (JSON output compared value by value,
+	// null and {} kept apart) - no record may depend on which file it came from or what was read before it
+	uniform := true
+	for _, f := range c.Files {
+		uniform = uniform && f.Codec == c.Files[0].Codec
+	}
+	if uniform {
+		ux, err := writeResults(dir, "unionx", c.Files[0].Codec, union)
+		if err != nil {
+			return err
+		}
+		canon := func(in []string, name string) ([]string, error) {
+			out := filepath.Join(dir, name)
+			if err := encode(in, "json", out); err != nil {
+				return nil, err
+			}
+			b, err := os.ReadFile(out)
+			if err != nil {
+				return nil, err
+			}
+			var lines []string
+			dec := json.NewDecoder(bytes.NewReader(b))
+			dec.UseNumber()
+			for {
+				var v any
+				if err := dec.Decode(&v); err == io.EOF {
+					break
+				} else if err != nil {
+					return nil, err
+				}
+				cb, _ := json.Marshal(v) // (object keys sorted)
+				lines = append(lines, string(cb))
+			}
+			sort.Strings(lines)
+			return lines, nil
+		}
+		ls, err1 := canon(files, "encj.split")
+		lu, err2 := canon([]string{ux}, "encj.union")
+		if err1 != nil || err2 != nil {
+			return fmt.Errorf("%s: encode -to json: %v %v", desc, err1, err2)
+		}
+		if len(ls) != len(lu) {
+			return fmt.Errorf("%s: encode -to json writes %d records for the split and %d for one %s file of the same results", desc, len(ls), len(lu), c.Files[0].Codec)
+		}
+		for i := range ls {
+			if ls[i] != lu[i] {
+				return fmt.Errorf("%s: encode -to json writes a different multiset of records for the split than for one %s file holding the same results, e.g.\n split: %.600s\n union: %.600s", desc, c.Files[0].Codec, ls[i], lu[i])
+			}
+		}
+	}
 	// each input's own order is kept
 	next := make([]int, len(c.Files))
 	for n, r := range rs {
@@ -352,6 +404,11 @@ func TestC13Commands(t *testing.T) {
 				f.Results = append(f.Results, r)
 			}
 			c.Files = append(c.Files, f)
+		}
+		if rapid.IntRange(0, 2).Draw(t, "uniform") == 0 {
+			for i := range c.Files {
+				c.Files[i].Codec = c.Files[0].Codec
+			}
 		}
 		c.To = rapid.SampledFrom([]string{"gob", "csv", "json"}).Draw(t, "to")
 		switch rapid.IntRange(0, 5).Draw(t, "type") {
